@@ -183,22 +183,9 @@ func (a *Authenticator) performFSAuthenticationClient(ctx context.Context, negot
 		fmt.Printf("FS: Server error - received empty directory path\n")
 	}
 
-	// Send result back to server
-	responseMsg := message.NewMessageForStream(a.stream)
-	if err := responseMsg.PutInt(ctx, clientResult); err != nil {
-		if root != nil {
-			_ = root.Close()
-		}
-		return fmt.Errorf("failed to send client result: %w", err)
-	}
-	if err := responseMsg.FinishMessage(ctx); err != nil {
-		if root != nil {
-			_ = root.Close()
-		}
-		return fmt.Errorf("failed to finish message: %w", err)
-	}
-
-	// Clean up directory if we created it
+	// Clean up directory if we created it. Registered before the result is sent so
+	// that every exit path below -- including a failure to send the result -- removes
+	// the directory again.
 	defer func() {
 		if root == nil {
 			return
@@ -211,6 +198,15 @@ func (a *Authenticator) performFSAuthenticationClient(ctx context.Context, negot
 			}
 		}
 	}()
+
+	// Send result back to server
+	responseMsg := message.NewMessageForStream(a.stream)
+	if err := responseMsg.PutInt(ctx, clientResult); err != nil {
+		return fmt.Errorf("failed to send client result: %w", err)
+	}
+	if err := responseMsg.FinishMessage(ctx); err != nil {
+		return fmt.Errorf("failed to finish message: %w", err)
+	}
 
 	// Receive server verification result
 	verifyMsg := message.NewMessageFromStream(a.stream)
